@@ -49,6 +49,8 @@ class Facts:
                 self.lose_op[op[1]] = i
         self.log = {int(k): v for k, v in res["log"].items()}
         self.dig = res["digests"]
+        # setter callbacks configured on the test accessory (harness configuration, not the model)
+        self.cb = {op[1]: op[2:] for op in ops if op[0] == "cb"}
 
     def nobj_at(self, i):
         return sum(1 for c in self.connect_op if c < i)
@@ -219,6 +221,16 @@ def changes_of(f: Facts):
             changed = before is None or before[x] != v
         if changed:
             res.append((i, x, v, who, worker))
+        if op[0] == "put" and x in f.cb:
+            # what the application's callback does inside the write is an application change
+            # (originator none), judged by VALUE CHANGE as the property says
+            cb = f.cb[x]
+            cur = dict(enumerate(before)) if before is not None else {}
+            cur[x] = v
+            if cb[0] == "set_to" and (x in f.nul or cb[1] != v):
+                res.append((i, x, cb[1], None, False))
+            elif cb[0] == "set_other" and (cb[1] in f.nul or cur.get(cb[1]) != cb[2]):
+                res.append((i, cb[1], cb[2], None, False))
     return res
 
 
